@@ -83,6 +83,57 @@ def run(chk):
         if ci == 0:
             chk.samples.append(dict(case=dict(meta[0][0], y=meta[0][0]["y"][:6]), impl_dNs=C.jsonable(meta[0][1][0][:4])))
     chk.correspondence("esc_field (1e-8) vs EvolvedMF._derivs_esc on arbitrary (t, y)", ncase, dis)
+    # ---- the dispatcher: total derivative = (stellar evolution if enabled) + (escape unless the rate is a non-negative constant)
+    nd = 0
+    for ci, (car0, kw, args) in enumerate(cars):
+        for _ in range(20 if chk.tier == "quick" else 150):
+            car = copy.copy(car0)
+            t = F.random_time(rng, car)
+            y = F.random_state(rng, car)
+            car._stellar_ev = rng.random() < 0.5
+            rate = rng.choice([0.0, 0.0, -7.5, -120.0])
+            if rng.random() < 0.4:
+                car.esc_rate = (lambda r: (lambda tt: r))(rate)
+                car._time_dep_esc = True
+            else:
+                car.esc_rate = rate
+                car._time_dep_esc = False
+            car._esc_norm = rng.choice(["N", "M"])
+            car.tcc = rng.choice([0.0, 1e9])
+            case = dict(carrier=ci, t=t, stellar_evolution=bool(car._stellar_ev), rate=rate, callable=bool(car._time_dep_esc),
+                        norm=car._esc_norm, tcc=car.tcc)
+            try:
+                tot = car._derivs(t, y.copy())
+                want = np.zeros_like(tot)
+                if car._stellar_ev:
+                    want = want + car._derivs_sev(t, y.copy())
+                if car._time_dep_esc or rate < 0:
+                    want = want + car._derivs_esc(t, y.copy())
+            except ValueError:
+                continue
+            nd += 1
+            same = np.array_equal(np.nan_to_num(tot, nan=-1.234e300), np.nan_to_num(want, nan=-1.234e300))
+            if not same:
+                chk.fail("the instantaneous loss equals the requested rate: the total derivative includes the escape part whenever a rate is given "
+                         "(and the stellar-evolution part only when enabled)", case,
+                         dict(sum_total=float(np.nansum(tot[:car.massbins.nbin.MS])), sum_expected=float(np.nansum(want[:car.massbins.nbin.MS]))))
+    chk.count("dispatcher (_derivs) evaluations", nd)
+    chk.evaluations += nd
+    # ---- N(t) = N0 + integral of the rate over complete runs with all remnants retained --------------------
+    emf, *_ = U.mods()
+    for sev in (True, False):
+        for nrm in (["N"] if chk.tier == "quick" else ["N", "M"]):
+            rate = -12.0
+            tout = [2000.0, 6000.0, 10000.0]
+            m = emf.EvolvedMF.from_powerlaw([0.1, 0.5, 1.0, 100], [-0.5, -1.3, -2.5], [3, 3, 10], -1.0, tout, rate, N0=5e5,
+                                            NS_ret=1.0, BH_ret_int=1.0, BH_ret_dyn=1.0, stellar_evolution=sev, esc_norm=nrm)
+            if nrm == "N" and m.converged:
+                tot = m.Ns.sum(axis=1) + np.c_[m.Nr].sum(axis=1)
+                want = 5e5 + rate * np.array(tout)
+                chk.count("complete runs with escape")
+                if np.any(np.abs(tot - want) > 1e-6 * 5e5):
+                    chk.fail("integrated over time N(t) = N0 + integral of the rate when all remnants are retained",
+                             dict(stellar_evolution=sev, norm=nrm, rate=rate, tout=tout), dict(N=tot.tolist(), expected=want.tolist()))
     chk.trusted += ["harness/props/C03.py, fieldutil.py", "numpy pairwise summation vs left-to-right sums (tolerance 1e-8)",
                     "scipy.integrate.quad as oracle for the 1-sqrt(m/md) weighted integrals", "FloatFun pow/ln/sqrt"]
 
